@@ -74,8 +74,26 @@ def make_swatches(sw):
     return flat.reshape(4, 6, 3) if sw["layout"] == "4x6" else flat
 
 
-def make_map(rng, mode):
+STRUCTS = ("generic", "offset", "identity")
+
+
+def eff_struct(mode, struct):
+    """The structured special members of the class `mode`: "offset" = identity matrix with a
+    non-zero translation (a pure colour shift; only the affine class has it), "identity" = the
+    identity map (member of every class)."""
+    if struct == "offset" and mode != "affine":
+        return "identity"
+    return struct
+
+
+def make_map(rng, mode, struct="generic"):
     """Ground-truth map of the class `mode` near the identity -> (A, b)."""
+    struct = eff_struct(mode, struct)
+    if struct == "identity":
+        return np.eye(3), np.zeros(3)
+    if struct == "offset":
+        b = rng.uniform(0.02, 0.1, 3) * rng.choice([-1.0, 1.0], 3)
+        return np.eye(3), b
     if mode == "diagonal":
         return np.diag(1.0 + 0.3 * rng.uniform(-1, 1, 3)), np.zeros(3)
     a = np.eye(3) + 0.15 * rng.uniform(-1, 1, (3, 3))
@@ -141,7 +159,11 @@ def gen_exact(tier):
         # the ground truth may be of a smaller class than the fitted one (diagonal < linear < affine)
         # "bigger": the targets are not representable; only the structure of the fitted class is
         # asserted (white balance stays diagonal, linear balance maps black to black)
-        "truth": st.sampled_from(["same", "same", "same", "smaller", "bigger"]),
+        # "offset" / "identity": the structured members of the affine class (identity matrix with
+        # a non-zero translation = pure colour shift) and of every class (the identity map); for a
+        # diagonal / linear fit a pure shift is a target of a bigger class
+        "truth": st.sampled_from(["same", "same", "same", "smaller", "bigger", "offset", "offset",
+                                  "identity"]),
         "mseed": st.integers(0, 2**20),
     })
 
@@ -152,7 +174,7 @@ def enum_exact(tier):
     out = []
     for k in range(2 if tier == "quick" else 16):
         for variant in VARIANTS:
-            for truth in ("same", "smaller", "bigger"):
+            for truth in ("same", "smaller", "bigger", "offset", "identity"):
                 for layout, n in (("4x6", 24), ("flat", 6 + 5 * k)):
                     out.append({"sw": {"layout": layout, "N": n, "pseed": 1000 + k}, "variant": variant,
                                 "truth": truth, "mseed": 77 + k})
@@ -177,12 +199,15 @@ def check_recovers_exact_map(case):
     bigger = case["truth"] == "bigger" and mode != "affine"
     if bigger:
         tmode = MODES[MODES.index(mode) + 1]
-    a, b = make_map(rng, tmode)
+    struct = case["truth"] if case["truth"] in ("offset", "identity") else "generic"
+    if struct == "offset" and mode != "affine":
+        bigger, tmode = True, "affine"  # a pure colour shift is not a diagonal / linear map
+    a, b = make_map(rng, tmode, struct)
     dst = ref_apply(src, a, b)
     img = rng.integers(0, 9, size=(3, 4, 3)) / 8.0
     if bigger:
         img = np.concatenate((np.eye(3), np.zeros((1, 3))), axis=0)  # unit colours and black
-    tags = {"variant": variant, "mode": mode, "truth": tmode, "layout": sw["layout"]}
+    tags = {"variant": variant, "mode": mode, "truth": tmode, "layout": sw["layout"], "map": struct}
     head = variant.split("-")[0]
     got_img = None
     if head == "fn":
@@ -215,8 +240,8 @@ def check_recovers_exact_map(case):
         if mode == "diagonal" and np.any(off != 0.0):
             raise Violation("not-in-class:diagonal", f"{variant}: a white balance fitted to non-diagonal "
                             f"targets mixes channels (off-diagonal {float(np.abs(off).max()):.3e})", tags)
-        return Outcome(True, key=[sw, variant, case["mseed"], tmode, "bigger"],
-                       labels=_sw_labels(sw) + (variant, "truth-bigger"))
+        return Outcome(True, key=[sw, variant, case["mseed"], tmode, struct, "bigger"],
+                       labels=_sw_labels(sw) + (variant, "truth-bigger", f"map-{struct}"))
     if got.shape != dst.shape:
         raise Violation("shape", f"{variant}: balanced swatches have shape {got.shape}", tags)
     err = float(np.abs(got - dst).max())
@@ -225,7 +250,8 @@ def check_recovers_exact_map(case):
         ref_err = float(np.abs(ref_apply(src, ra, rb) - dst).max())
         if not ref_err <= TOL_FIT:
             return Outcome(False, status="skipped", labels=("optimiser-stalled",))
-        raise Violation(f"not-recovered:{mode}", f"{variant} on an exact {tmode} map: max |apply(src) - dst| "
+        raise Violation(f"not-recovered:{mode}", f"{variant} on an exact {tmode} map ({struct}): "
+                        f"max |apply(src) - dst| "
                         f"= {err:.3e} (an independent Powell run reaches {ref_err:.1e})", tags)
     if got_img is not None:
         want = ref_apply(img, a, b)
@@ -236,9 +262,10 @@ def check_recovers_exact_map(case):
         if not e2 <= 40 * TOL_FIT:
             raise Violation(f"image-not-mapped:{mode}", f"{variant}: image passed through the fitted balance "
                             f"differs from the ground-truth map by {e2:.3e}", tags)
-    return Outcome(nontrivial=_nonsym(a) or tmode == "diagonal" and mode == "diagonal",
-                   key=[sw, variant, case["mseed"], tmode],
-                   labels=_sw_labels(sw) + (variant, f"truth-{tmode}"))
+    return Outcome(nontrivial=_nonsym(a) or tmode == "diagonal" and mode == "diagonal" and struct == "generic"
+                   or struct == "offset",
+                   key=[sw, variant, case["mseed"], tmode, struct],
+                   labels=_sw_labels(sw) + (variant, f"truth-{tmode}", f"map-{struct}"))
 
 
 # ---------------------------------------------------------------------------------------
@@ -253,12 +280,20 @@ def gen_residual(tier):
         "modes": st.lists(st.sampled_from(MODES), min_size=1, max_size=3),
         "start": st.sampled_from(["identity", "prefit", "manual", "optimal", "optimal"]),
         "dst": st.sampled_from(["exact", "noisy", "generic"]),
+        "structs": st.lists(_STRUCT, min_size=3, max_size=3),
         "mseed": st.integers(0, 2**20),
     })
 
 
-def _targets(rng, src, kind, mode):
-    a, b = make_map(rng, mode)
+_STRUCT = st.sampled_from(["generic", "generic", "generic", "offset", "offset", "identity"])
+
+
+def _structs_of(case):
+    return case.get("structs", ["generic"] * 3)  # replays recorded before the key existed
+
+
+def _targets(rng, src, kind, mode, struct="generic"):
+    a, b = make_map(rng, mode, struct)
     dst = ref_apply(src, a, b)
     if kind == "noisy":
         dst = dst + 0.05 * rng.uniform(-1, 1, dst.shape)
@@ -276,7 +311,8 @@ def check_residual(case):
     if cls != "adaptive":
         mode = VMODE[cls]
         bal = PLAIN[mode]()
-        dst, a, b = _targets(rng, src, case["dst"], mode)
+        structs = [eff_struct(mode, _structs_of(case)[0])]
+        dst, a, b = _targets(rng, src, case["dst"], mode, structs[0])
         if case["start"] == "prefit":
             other, _, _ = _targets(rng, src, "noisy", mode)
             bal.find_balance(src, other)
@@ -310,8 +346,9 @@ def check_residual(case):
         bal = cb.AdaptiveBalance()
         modes = case["modes"]
         tags["modes"] = "-".join(modes)
+        structs = [eff_struct(m, s) for m, s in zip(modes, _structs_of(case))]
         for k, mode in enumerate(modes):
-            dst, _, _ = _targets(rng, src, case["dst"], mode)
+            dst, _, _ = _targets(rng, src, case["dst"], mode, structs[k])
             r0 = residual(bal, src, dst)
             bal.find_balance(src, dst, mode=mode)
             r1 = residual(bal, src, dst)
@@ -322,11 +359,13 @@ def check_residual(case):
                                 f"(dst={case['dst']}): residual of the accumulated balance "
                                 f"{r0!r} -> {r1!r}", tags)
         stages = len(modes)
+    if case["dst"] == "generic":
+        structs = []
     return Outcome(nontrivial=case["dst"] != "exact" or case["start"] != "identity" or stages > 1,
-                   key=[sw, cls, case["start"], case["dst"], case["mseed"],
+                   key=[sw, cls, case["start"], case["dst"], case["mseed"], structs,
                         case["modes"] if cls == "adaptive" else None],
                    labels=_sw_labels(sw) + (cls, f"start-{case['start']}", f"dst-{case['dst']}",
-                                            f"stages{stages}"),
+                                            f"stages{stages}") + tuple(sorted({f"map-{s}" for s in structs})),
                    evals=n)
 
 
@@ -341,6 +380,8 @@ def gen_staged(tier):
         "modes": st.lists(st.sampled_from(MODES), min_size=2, max_size=3),
         "subsets": st.lists(st.sampled_from(["all", "all", "head", "rest"]), min_size=3, max_size=3),
         "dst": st.sampled_from(["exact", "noisy"]),
+        # per stage: generic member of the class, pure colour shift (affine stages), identity map
+        "structs": st.lists(_STRUCT, min_size=3, max_size=3),
         "mseed": st.integers(0, 2**20),
     })
 
@@ -358,13 +399,15 @@ def check_staged_equals_sequential(case):
     rng = np.random.default_rng(case["mseed"])
     x_list = [rng.uniform(0, 1, (7, 3)), rng.integers(0, 9, size=(3, 2, 3)) / 8.0,
               src]
-    tags = {"modes": "-".join(modes), "layout": sw["layout"], "nstages": len(modes)}
+    structs = [eff_struct(m, s) for m, s in zip(modes, _structs_of(case))]
+    tags = {"modes": "-".join(modes), "layout": sw["layout"], "nstages": len(modes),
+            "maps": "-".join(structs)}
     bal = cb.AdaptiveBalance()
     stages = []
     n = 0
     for k, mode in enumerate(modes):
         which = _usable_subset(sw, case["subsets"][k])
-        dst, _, _ = _targets(rng, src, case["dst"], mode)
+        dst, _, _ = _targets(rng, src, case["dst"], mode, structs[k])
         s_sub, d_sub = subset(src, which), subset(dst, which)
         # the stage balance, obtained independently: the plain class fitted on the swatches as the
         # accumulated balance maps them right now (bit-identical input, Powell is deterministic)
@@ -390,8 +433,10 @@ def check_staged_equals_sequential(case):
                                 f"from applying the stage balances one after the other by {err:.3e} "
                                 f"(tol {tol:.1e})", tags)
     commuting = all(m == "diagonal" for m in modes)
-    return Outcome(nontrivial=not commuting, key=[sw, modes, case["subsets"], case["dst"], case["mseed"]],
-                   labels=_sw_labels(sw) + ("-".join(modes), f"dst-{case['dst']}"), evals=n)
+    return Outcome(nontrivial=not commuting,
+                   key=[sw, modes, structs, case["subsets"], case["dst"], case["mseed"]],
+                   labels=_sw_labels(sw) + ("-".join(modes), f"dst-{case['dst']}")
+                   + tuple(sorted({f"map-{s}" for s in structs})), evals=n)
 
 
 # ---------------------------------------------------------------------------------------
@@ -407,6 +452,7 @@ def gen_composed(tier):
             "sw": swatch_specs(),
             "modes": st.sampled_from([["diagonal", "affine"], ["diagonal", "linear"]]),
             "second_on": st.sampled_from(["all", "rest"]),
+            "structs": st.lists(_STRUCT, min_size=3, max_size=3),
             "mseed": st.integers(0, 2**20),
         }),
         # general chains: stage k is given the exact image of stage k-1's targets
@@ -415,6 +461,7 @@ def gen_composed(tier):
             "sw": swatch_specs(),
             "modes": st.lists(st.sampled_from(MODES), min_size=2, max_size=3),
             "second_on": st.just("all"),
+            "structs": st.lists(_STRUCT, min_size=3, max_size=3),
             "mseed": st.integers(0, 2**20),
         }),
     )
@@ -424,12 +471,13 @@ def check_staged_recovers_composed_map(case):
     sw, modes = case["sw"], case["modes"]
     src = make_swatches(sw)
     rng = np.random.default_rng(case["mseed"])
+    structs = [eff_struct(m, s) for m, s in zip(modes, _structs_of(case))]
     tags = {"modes": "-".join(modes), "layout": sw["layout"], "scenario": case["scenario"],
-            "nstages": len(modes)}
+            "nstages": len(modes), "maps": "-".join(structs)}
     bal = cb.AdaptiveBalance()
     if case["scenario"] == "wb-then-cb":
-        d, _ = make_map(rng, "diagonal")
-        a, b = make_map(rng, modes[1])
+        d, _ = make_map(rng, "diagonal", structs[0])
+        a, b = make_map(rng, modes[1], structs[1])
         dst = ref_apply(ref_apply(src, d, np.zeros(3)), a, b)
         head = "head" if (sw["layout"] == "4x6" or sw["N"] >= 10) else "all"
         second = case["second_on"] if head == "head" else "all"
@@ -437,14 +485,14 @@ def check_staged_recovers_composed_map(case):
                   (modes[1], subset(src, second), subset(dst, second))]
         for mode, s_k, d_k in stages:
             bal.find_balance(s_k, d_k, mode=mode)
-        nontrivial = _nonsym(a)
+        nontrivial = _nonsym(a) or structs[1] == "offset"
     else:
         t = src
         nontrivial = False
         stages = []
-        for mode in modes:
-            a, b = make_map(rng, mode)
-            nontrivial |= _nonsym(a)
+        for mode, struct in zip(modes, structs):
+            a, b = make_map(rng, mode, struct)
+            nontrivial |= _nonsym(a) or struct == "offset"
             t = ref_apply(t, a, b)
             stages.append((mode, src, t))
             bal.find_balance(src, t, mode=mode)
@@ -459,8 +507,10 @@ def check_staged_recovers_composed_map(case):
         raise Violation("staged-not-recovered", f"{case['scenario']} {modes}: accumulated balance leaves "
                         f"max |apply(src) - dst| = {err:.3e} on an exactly representable map (independent "
                         f"Powell fits composed in the row-vector convention reach {ref_err:.1e})", tags)
-    return Outcome(nontrivial=nontrivial, key=[sw, modes, case["scenario"], case["second_on"], case["mseed"]],
-                   labels=_sw_labels(sw) + (case["scenario"], "-".join(modes)))
+    return Outcome(nontrivial=nontrivial,
+                   key=[sw, modes, structs, case["scenario"], case["second_on"], case["mseed"]],
+                   labels=_sw_labels(sw) + (case["scenario"], "-".join(modes))
+                   + tuple(sorted({f"map-{s}" for s in structs})))
 
 
 # ---------------------------------------------------------------------------------------
@@ -476,6 +526,10 @@ def gen_rowvec(tier):
             st.tuples(st.integers(1, 30), st.just(3)).map(list),
             st.just([3]), st.just([4, 6, 3])),
         "values": st.sampled_from(["dyadic", "float", "uint8", "uint16"]),
+        # structure of the matrix written into the balance: generic, exactly the identity (with a
+        # generic translation where the class has one), or the identity up to dyadic perturbations
+        # of 2^-30 (products with the dyadic payloads stay exact in double precision)
+        "matrix": st.sampled_from(["generic", "generic", "identity", "near-identity"]),
         "pseed": st.integers(0, 2**20),
     })
 
@@ -499,6 +553,10 @@ def check_row_vector(case):
         x = rng.uniform(0, 1, case["shape"])
         a = np.eye(3) + 0.3 * rng.uniform(-1, 1, (3, 3))
         b = rng.uniform(-0.2, 0.2, 3)
+    if case.get("matrix", "generic") == "identity":
+        a = np.eye(3)
+    elif case.get("matrix", "generic") == "near-identity":
+        a = np.eye(3) + rng.integers(-4, 5, size=(3, 3)) * 2.0 ** -30
     if cls == "white":
         a = np.diag(np.diag(a))
     if cls in ("white", "color"):
@@ -508,7 +566,7 @@ def check_row_vector(case):
         bal.balance_translation = b.copy()
     got = np.asarray(bal.apply_balance(x))
     want = ref_apply(x.astype(float), a, b)
-    tags = {"cls": cls, "ndim": len(case["shape"]), "values": case["values"]}
+    tags = {"cls": cls, "ndim": len(case["shape"]), "values": case["values"], "matrix": case.get("matrix", "generic")}
     if got.shape != want.shape:
         raise Violation("shape", f"apply_balance: {x.shape} -> {got.shape}", tags)
     tol = 0.0 if dy else 16 * EPS * (3 * np.abs(a).max() * np.abs(x).max() + np.abs(b).max())
@@ -518,14 +576,20 @@ def check_row_vector(case):
                         f"(max diff {err:.3e}, shape {x.shape})", tags)
     if not np.array_equal(np.asarray(bal.balance_scaling), a):
         raise Violation("apply-mutates-balance", "apply_balance changed balance_scaling", tags)
-    return Outcome(nontrivial=cls != "white" and _nonsym(a), key=[case["cls"], case["shape"], case["values"], case["pseed"]],
-                   labels=(cls, f"ndim{len(case['shape'])}", case["values"]))
+    shifted = cls in ("affine", "adaptive") and bool(np.any(b != 0))
+    return Outcome(nontrivial=cls != "white" and _nonsym(a) or case.get("matrix", "generic") != "generic" and shifted,
+                   key=[case["cls"], case["shape"], case["values"], case.get("matrix", "generic"), case["pseed"]],
+                   labels=(cls, f"ndim{len(case['shape'])}", case["values"], f"matrix-{case['matrix']}"))
 
 
 _RULE = ("Hypothesis draws the swatch layout (4x6x3 chart or flat Nx3, N 6..40), the balance class / "
          "ordered list of 1-3 staged modes, the start state and integer seeds; swatches = offset + "
          "orthonormal frame x singular values in [0.3,1] (cond <= ~20), ground-truth maps near the "
-         "identity (D = I +- 0.3, A = I + 0.15 U(-1,1), |b| <= 0.1); non-trivial = a non-symmetric "
+         "identity (D = I +- 0.3, A = I + 0.15 U(-1,1), |b| <= 0.1) including the structured members "
+         "of the classes (pure colour shift A = I, b != 0; the identity map; matrices within 2^-28 of "
+         "the identity for the application law); one ColorCorrection object applied to sequences of "
+         "2-3 checker images (same / drift below an 8-bit step / illumination change / unrelated); "
+         "non-trivial = a non-symmetric "
          "ground-truth / stage matrix (|A - A^T| > 0.05), a non-commuting stage list, or a fit not "
          "started from the identity; distinct = (swatch spec, class / modes, seeds)")
 
@@ -636,6 +700,109 @@ def check_colorcorrection_stages(case):
                                 f"truth-{case['truth']}"))
 
 
+# ---------------------------------------------------------------------------------------
+# 7. one colour correction object applied to a sequence of images: every image gets the balance
+#    fitted to *its own* swatches
+# ---------------------------------------------------------------------------------------
+
+RELATIONS = ["same", "tiny", "tiny", "illumination", "independent"]
+
+
+def gen_cc_sequence(tier):
+    return st.fixed_dictionaries({
+        "shape": st.tuples(st.sampled_from([200, 240, 300]), st.sampled_from([300, 330, 420])).map(list),
+        "dtype": st.sampled_from(["float64", "float32", "uint16"]),
+        "whitebalancing": st.booleans(),
+        "colorbalancing": st.sampled_from(["affine", "linear"]),
+        # how image k+1 relates to image k
+        "relations": st.lists(st.sampled_from(RELATIONS), min_size=1, max_size=2),
+        "mseed": st.integers(0, 2**16),
+    })
+
+
+def _float_checker_image(h, w, colors, dtype):
+    """Like c10._checker_image (brown swatch upper left) but with real-valued swatch colours in
+    [0, 1], stored as float64 / float32 / uint16."""
+    import cv2
+
+    from vf.props import c10
+
+    fh = int(17.8 / 27.3 * 500) + 1
+    frame = np.full((max(fh, 320), 500, 3), 20.0 / 255.0)
+    for i, r in enumerate(c10._SW_ROW):
+        for j, c in enumerate(c10._SW_COL):
+            frame[max(0, r - 10):r + 60, max(0, c - 10):c + 60] = colors[i, j]
+    up = cv2.resize(frame[:fh], (w, h), interpolation=cv2.INTER_NEAREST)
+    if dtype == "uint16":
+        return np.round(up * 65535.0).astype(np.uint16)
+    return up.astype(dtype)
+
+
+def _bin_centred(colors):
+    """Colours moved to the centres of their 8-bit bins (so that perturbations below 0.4/255 do
+    not change any 8-bit representation of them)."""
+    return (np.floor(np.clip(colors, 0.1, 0.9) * 255.0) + 0.5) / 255.0
+
+
+def check_colorcorrection_sequence(case):
+    """ColorCorrection (darsia balancing) is a function of the image it is given: applied to a
+    sequence of images (same checker again / colours drifting by less than an 8-bit step / a
+    change of illumination / unrelated colours) one object returns for every image exactly what
+    a fresh object returns for it - i.e. (by colorcorrection_is_staged_composition) the white
+    balance then colour balance fitted to the swatches of *that* image.  The k-means RNG of cv2
+    is reset before every call, which makes correct_array deterministic."""
+    import cv2
+
+    import darsia
+    from vf.props import c10
+
+    h, w = case["shape"]
+    rng = np.random.default_rng(case["mseed"])
+    ref = rng.integers(40, 216, size=(4, 6, 3)).astype(float) / 255.0
+    A = np.eye(3) + 0.12 * rng.uniform(-1, 1, size=(3, 3))
+    b = 0.06 * rng.uniform(-1, 1, size=3)
+    base = _bin_centred((ref - b) @ np.linalg.inv(A))
+    cfg = {"roi": c10._color_roi(h, w, 0), "active": True, "balancing": "darsia",
+           "colorbalancing": case["colorbalancing"], "whitebalancing": case["whitebalancing"], "clip": False}
+
+    def new_correction():
+        return darsia.ColorCorrection(base=c10._custom_checker(ref.astype(np.float32)), config=cfg)
+
+    def run(corr, img):
+        cv2.setRNGSeed(0)
+        return np.asarray(corr.correct_array(img.copy()))
+
+    corr = new_correction()
+    colors = base
+    run(corr, _float_checker_image(h, w, colors, case["dtype"]))
+    t = {"wb": case["whitebalancing"], "cb": case["colorbalancing"], "dtype": case["dtype"]}
+    n = 0
+    for k, rel in enumerate(case["relations"]):
+        if rel == "tiny":
+            colors = base + rng.uniform(-0.4, 0.4, size=base.shape) / 255.0
+        elif rel == "illumination":
+            base = _bin_centred(base * (1.0 + 0.08 * rng.uniform(-1, 1, size=3)))
+            colors = base
+        elif rel == "independent":
+            base = _bin_centred(rng.uniform(0.15, 0.85, size=base.shape))
+            colors = base
+        img = _float_checker_image(h, w, colors, case["dtype"])
+        got = run(corr, img)
+        want = run(new_correction(), img)
+        n += 1
+        if got.shape != want.shape or not np.array_equal(got, want):
+            err = float(np.abs(got.astype(float) - want.astype(float)).max()) if got.shape == want.shape else float("inf")
+            t["relation"], t["step"] = rel, k + 2
+            raise Violation(f"colorcorrection-depends-on-history:{rel}",
+                            f"image {k + 2} of a sequence ({rel} w.r.t. the previous one): the correction "
+                            f"object returns something else than a fresh object fitted to this image "
+                            f"(max diff {err:.2e}) - the balance is not the one fitted to its swatches", t)
+    return Outcome(any(r != "same" for r in case["relations"]), case,
+                   tuple(sorted({f"next-{r}" for r in case["relations"]}))
+                   + (case["dtype"], f"wb-{case['whitebalancing']}", f"cb-{case['colorbalancing']}"),
+                   evals=n)
+
+
 PROP = Prop(
     pid="C12",
     rule=_RULE,
@@ -649,6 +816,9 @@ PROP = Prop(
         "bit-identical pre-balanced swatches (Powell is deterministic)",
         "residual comparison allows 1e-12 relative slack; 'optimal' start = closed-form least-squares "
         "optimum of the class written into balance_scaling / balance_translation",
+        "ColorCorrection.correct_array is treated as a pure function of (image, config, reference "
+        "swatches) once cv2's k-means RNG is reset before the call: a used object must return bit-"
+        "identical output to a fresh object on the same image",
         "targets of a bigger class than the fitted one: only the class structure is asserted (white "
         "balance stays diagonal, diagonal / linear balances map black to black)",
     ],
@@ -667,6 +837,8 @@ PROP = Prop(
             n={"quick": 60, "thorough": 1500}, shards={"quick": 4, "thorough": 16}),
         Sub("colorcorrection_is_staged_composition", check_colorcorrection_stages, gen=gen_colorcorrection,
             n={"quick": 48, "thorough": 1200}, shards={"quick": 4, "thorough": 16}),
+        Sub("colorcorrection_sequence_each_image_own_balance", check_colorcorrection_sequence,
+            gen=gen_cc_sequence, n={"quick": 24, "thorough": 600}, shards={"quick": 4, "thorough": 16}),
         Sub("row_vector_convention", check_row_vector, gen=gen_rowvec,
             n={"quick": 400, "thorough": 8000}, shards={"quick": 1, "thorough": 4}),
     ],
